@@ -193,7 +193,7 @@ func (s *st) revoke(tag string, narrow bool) {
 			zz.Assert(pre[i] == post[i], label)
 		}
 	}
-	authenticated := (pres == "c1" && sec == world.Secret1) || (pres == "c2" && sec == world.Secret2) || pres == "c3"
+	authenticated := (pres == "c1" && sec == world.Secret1) || (pres == "c2" && sec == world.Secret2) || pres == "c3" || (pres == "C1" && sec == secretUpper)
 
 	switch {
 	case !authenticated:
@@ -306,12 +306,16 @@ func symAdvance() time.Duration {
 	return d
 }
 
+const secretUpper = "secret-of-C1"
+
 func run(origin, maxPrefix, preKinds, freeOps int) {
 	s := &st{w: world.NewX(world.XOptions{Hybrid: origin == originHybrid || origin == originHybridFresh}), l: &world.Ledger{},
 		client: [2]string{"c1", "c2"}, unsure: map[int]bool{}}
 	// a registered PUBLIC client: it is identified without a secret and owns no token here
 	s.w.Store.Clients["c3"] = &fosite.DefaultClient{ID: "c3", Public: true, GrantTypes: []string{"authorization_code", "refresh_token"},
 		RedirectURIs: []string{"https://c3.example/cb"}, ResponseTypes: []string{"code"}, Scopes: []string{"offline", "photos"}}
+	// a confidential client whose id differs from the owner's only in letter case: client ids are case-sensitive
+	s.w.Store.Clients["C1"] = world.NewClient("C1", secretUpper, s.w.Cfg)
 	s.start(0, origin)
 	s.start(1, originCode)
 	for i, n := 0, zz.Choice("prefix", maxPrefix+1); i < n; i++ {
